@@ -9,7 +9,8 @@ THEOREMS = ["Frost.C01.sign_aggregate_verify", "Frost.C01.signature_roundtrip",
             "Frost.SignSession.sign_eq", "Frost.SignSession.verifySignatureShare_eq",
             "Frost.SignSession.aggregate_eq", "Frost.computeGroupCommitment_eq",
             "Frost.computeLagrangeCoefficient_eq", "Frost.lagrange_interp_list",
-            "Frost.evaluatePolynomial_eq", "Frost.identifierOfNat_eq"]
+            "Frost.evaluatePolynomial_eq", "Frost.identifierOfNat_eq",
+            "Frost.C01.msm_sound", "Frost.C01.naf_value"]
 RULE = ("one case = one honest signing session (suite, n, t, identifier kind, signer subset S with t<=|S|<=n, message); "
         "non-trivial = commit, sign by every signer, share verification, aggregation (one or three modes) and verification all ran; "
         "distinct = distinct hash of (suite, identifiers, subset, message, key material)")
